@@ -42,6 +42,10 @@ HIST_RULE = ('histories of 1..12 operations generated online against the running
 HIST_TRUST = ['pgsem (harness/go/pgsem): executable stand-in for PostgreSQL executing the SQL text the real code emits (statement snapshots, triggers parsed from the '
               'current migrations, unique indexes, sequences); all SQL-dependent verdicts are relative to it',
               'modelled, not verified: bun query building/scanning, encoding/json, math/big, the ANTLR Numscript front end (exercised through TxToScriptData), OpenTelemetry wrappers']
+SCRIPTS_NOTE = (' With -scripts 30, 30% of the generated creates are Numscript requests whose script, after the sends, calls set_tx_meta (1-2 keys from the '
+                'alphabet of the request metadata, 20% with the empty value) and set_account_meta (0-2 accounts, most often the account the request\'s accountMetadata names, '
+                'common and disjoint keys) while the request carries metadata / accountMetadata beside it (model input IScript): METADATA_OVERRIDE, the key-by-key merge of '
+                'account metadata and replays of such requests under their idempotency key are exercised.')
 HIST_NOTE = ('Trusted: Coq kernel; extraction; the pgsem stand-in for PostgreSQL (no real database in the sandbox); the Go harness. The theorem is about Ledger/Core.v (mirror of '
              'storage + controller write path, one ledger, sequential); the differential run compares, after every operation, results and the full ledger state of model and real stack.')
 
@@ -59,10 +63,11 @@ ledger_prop('C02', ['C02_volumes_are_fold', 'C02_fold_meaning', 'C02_failed_noop
             'Coq proof (refinement: incrementally maintained accounts_volumes row = fold of stored postings, by induction over histories) + differential run against the real stack',
             'Unbounded theorem: for every history and every account/asset the stored volumes equal (Σ credits, Σ debits) over the postings of the stored transactions, reverts included; failed and dry-run operations change no table. Tie: model = real stack after every operation; monitor folds the postings of the RESULTS the implementation returned and compares with three read paths.',
             'The theorem is at table level; the read paths (GetAccount/ListAccounts expand volumes, GetVolumesWithBalances, aggregated balances) are exercised for real on every step and compared with model and monitor.')
-ledger_prop('C07', ['C07_error_no_trace', 'C07_dry_run_no_trace', 'C07_dry_run_same_answer', 'C07_replay_identity'],
+ledger_prop('C07', ['C07_error_no_trace', 'C07_dry_run_no_trace', 'C07_dry_run_same_answer', 'C07_replay_identity', 'C07_metadata_override_no_trace'],
             'Coq proof (frame property of the step function: error/dry-run/replay leave all tables equal) + differential run + snapshot-equality monitor on the real stack',
             'Unbounded theorem: any operation returning an error, any dry run and any idempotent replay leave all seven tables unchanged, and a dry run returns the answer of the real write. Tie: model = real stack; monitor compares complete ledger snapshots (all read paths + raw tables) before/after every failed or dry-run operation.',
-            'In the model rollback is structural (one SQL transaction per operation); that the real code routes every store call through that transaction is what the snapshot monitor and the fault-injection tie check on the real stack.')
+            'In the model rollback is structural (one SQL transaction per operation); that the real code routes every store call through that transaction is what the snapshot monitor and the fault-injection tie check on the real stack.',
+            extra=['-scripts', '30'])
 ledger_prop('C14', ['C14_unique_references', 'C14_reuse_is_conflict', 'C14_empty_reference_exempt'],
             'Coq proof (invariant: non-empty references duplicate-free, by induction over histories) + differential run; the unique partial index is read from the current migration text by pgsem',
             'Unbounded theorem (sequential histories): at most one stored transaction per non-empty reference; a create reusing one returns reference-conflict with no effect; the empty reference is exempt. Tie: model = real stack; monitor checks uniqueness and the conflict outcome on the implementation.',
@@ -84,10 +89,12 @@ ledger_prop('C15', ['C15_shape', 'C15_reverse_postings', 'C15_once', 'C15_neutra
             'Coq proof (shape of the revert from the step function; single revert via the reverted mark; algebraic neutrality of postings ++ reversed postings) + differential run',
             'Unbounded theorems (sequential): a successful revert of T creates one transaction with T\'s postings swapped in reverse order, the revert mark, timestamp T.ts or the revert time; a second revert fails with already-reverted; T plus its revert leave every balance unchanged. Tie: model = real stack; monitor checks shape/mark/timestamp/once on the implementation.',
             'Concurrent reverts (row lock + re-evaluation of reverted_at IS NULL) are covered by the schedule harness. The nil-map panic of a non-forced revert (suspect S-15) is modelled as an explicit Panic outcome.')
-ledger_prop('C17', ['C17_current_tx_metadata', 'C17_merge_last_write_wins', 'C17_delete_removes', 'C17_account_upsert', 'C17_tx_history_revision', 'C17_tx_metadata_as_of', 'C17_pit_read_uses_history', 'C17_account_metadata_as_of', 'C17_pit_account_read_uses_history'],
+ledger_prop('C17', ['C17_current_tx_metadata', 'C17_merge_last_write_wins', 'C17_delete_removes', 'C17_account_upsert', 'C17_tx_history_revision', 'C17_tx_metadata_as_of', 'C17_pit_read_uses_history', 'C17_account_metadata_as_of', 'C17_pit_account_read_uses_history',
+                    'C17_script_tx_metadata', 'C17_script_account_metadata', 'C17_script_account_keys'],
             'Coq proof (current transaction metadata = replay of saves/deletes in log order; merge/delete algebra; history revision per rewrite) + differential run incl. raw history tables + metadata monitor',
             'Unbounded theorems: current transaction metadata equals creation metadata with saves (last write wins per key) and deletes applied in commit order; account upsert merges over stored metadata; with the history feature every row rewrite appends the new metadata as next revision dated updated_at. Tie: model = real stack on current metadata AND both raw history tables under 5 feature sets.',
-            'The point-in-time read queries (as-of-t selection, DISABLED => current) are compared by the PIT read tie (C05 harness); chart default metadata is covered under C29.')
+            'The point-in-time read queries (as-of-t selection, DISABLED => current) are compared by the PIT read tie (C05 harness); chart default metadata is covered under C29.',
+            extra=['-scripts', '30'])
 ledger_prop('C18', ['C18_partial_persistence', 'C18_partial_involved_listed', 'C18_partial_metadata_creates', 'C18_partial_metadata_lowers', 'C18_first_usage_is_earliest_event', 'C18_full_without_reverts', 'C18_refuted_revert'],
             'Coq proof of the partial statement + refutation witness of the full statement (vm_compute) replayed on the real code + differential run',
             'Proved for every history: an account is listed iff the log holds an event involving it (created transaction at its timestamp, metadata write at its date) and its first usage IS the earliest such event (C18_first_usage_is_earliest_event); the property as worded, revert transactions included, for every history without reverts (C18_full_without_reverts); accounts persist with constant address/insertion date, first usage never increases, committed creates list every involved account with first usage <= effective timestamp, metadata creates the account and counts as a usage at the time of the write (after the repair 2a129a1). REFUTED (witness C18_refuted_revert, known finding): a revert transaction whose effective timestamp precedes an account\'s first usage does not lower it. Tie: model = real stack; monitor computes earliest effective event per account and tags the known revert case.',
